@@ -685,6 +685,12 @@ def _sx_is(a, b):
         return SymBool(a.none)
     if b is None and isinstance(a, (SymInt, SymFloat, SymBytes)):
         return False
+    # `type(x) is int` / `type(x) is bytes` in code whose `int`/`bytes` names are rebound to the proxy namespaces
+    for x, y in ((a, b), (b, a)):
+        if y is sx_int and isinstance(x, type):
+            return x is int or x is SymInt or x.__name__ == "SymIntZ"
+        if y is sx_bytes and isinstance(x, type):
+            return x is bytes or x is SymBytes
     return a is b
 
 
